@@ -31,7 +31,7 @@ Steps(s, m, decoded) ==
   IF Len(s) = 0 THEN << >>
   ELSE LET o == Head(s)
            st == CASE o \in {"decode", "unprotect"} ->
-                        Step("heap_decode", "C20", FALSE, [how |-> o], [panic |-> FALSE, err |-> FALSE, msg |-> DecMsg(m)])
+                        Step("heap_decode", "C20", FALSE, [how |-> o], [panic |-> FALSE, err |-> FALSE, msg |-> DecMsg(m), insame |-> TRUE])
                    [] o = "scribble_in" -> Step("heap_scribble_in", "C20", FALSE, [mode |-> Len(s) % 2], NoCrash)
                    [] o = "encode" -> Step("heap_encode", "C20", FALSE, [x |-> 0],
                                            \* (outside the encodable domain there is no reference encoding, but encoding must still not alter the message)
